@@ -110,6 +110,14 @@ def poke_line(ctx, rng, line, nbytes):
             guarded(ctx, "line.set_datatype", nbytes, line.set_datatype, n, rng.choice(["i", "Z", "q", "", "J"]))
         else:
             guarded(ctx, "line.tagnames", nbytes, lambda: (line.tagnames, line.positional_fieldnames))
+    rtr = call(ctx, "line.record_type", lambda: line.record_type)
+    rt = rtr.value if rtr.ok else None
+    if rt == "O":
+        guarded(ctx, "group.captured_path", nbytes, lambda: line.captured_path)
+    elif rt == "U":
+        guarded(ctx, "group.induced_set", nbytes, lambda: line.induced_set)
+    elif rt == "P":
+        guarded(ctx, "path.captured_path", nbytes, lambda: line.captured_path)
     for l in ():
         pass
 
